@@ -104,6 +104,9 @@ impl Game {
         for character in pieces.chars() {
             match character {
                 '/' => {
+                    if col != 8 {
+                        bail!("Invalid board size");
+                    }
                     if row == 0 {
                         bail!("Too many rows");
                     }
@@ -132,6 +135,9 @@ impl Game {
                 }
                 empty_count if character.is_ascii_digit() => {
                     let count = (empty_count as u8 - b'0') as i8;
+                    if count == 0 || count > 8 - col {
+                        bail!("Too many columns");
+                    }
                     for i in 0..count {
                         let position = Position::new_assert(row, col + i);
                         past_hashes[position.as_usize()] = zobrist::EMPTY_PLACE;
@@ -152,9 +158,9 @@ impl Game {
             bail!("Missing player");
         };
 
-        let current_player = match next_player.chars().next().unwrap() {
-            'w' => Player::White,
-            'b' => Player::Black,
+        let current_player = match next_player {
+            "w" => Player::White,
+            "b" => Player::Black,
             _ => bail!("Invalid player"),
         };
 
@@ -168,14 +174,15 @@ impl Game {
             bail!("Missing castling rights");
         };
 
-        for right in castling_rights.chars() {
-            match right {
-                'K' => state.set_white_king_castling_true(),
-                'Q' => state.set_white_queen_castling_true(),
-                'k' => state.set_black_king_castling_true(),
-                'q' => state.set_black_queen_castling_true(),
-                '-' => continue,
-                _ => bail!("Invalid castling right"),
+        if castling_rights != "-" {
+            for right in castling_rights.chars() {
+                match right {
+                    'K' if !state.white_king_castling() => state.set_white_king_castling_true(),
+                    'Q' if !state.white_queen_castling() => state.set_white_queen_castling_true(),
+                    'k' if !state.black_king_castling() => state.set_black_king_castling_true(),
+                    'q' if !state.black_queen_castling() => state.set_black_queen_castling_true(),
+                    _ => bail!("Invalid castling right"),
+                }
             }
         }
 
@@ -184,10 +191,23 @@ impl Game {
         };
 
         if en_passant != "-" {
-            let col = en_passant.chars().nth(0).unwrap();
-            state.set_en_passant(((col as u8) - b'a') as i8);
-            if !(0..8).contains(&state.en_passant()) {
+            // The square behind a pawn that has just advanced two squares: a3-h3 or a6-h6
+            let &[col, row] = en_passant.as_bytes() else {
                 bail!("Invalid en passant square");
+            };
+            if !(b'a'..=b'h').contains(&col) || (row != b'3' && row != b'6') {
+                bail!("Invalid en passant square");
+            }
+            state.set_en_passant((col - b'a') as i8);
+        }
+
+        // Optional halfmove clock and fullmove number, and nothing after them
+        for (index, counter) in terms.enumerate() {
+            if index >= 2
+                || !counter.bytes().all(|digit| digit.is_ascii_digit())
+                || counter.parse::<u32>().is_err()
+            {
+                bail!("Invalid move counters");
             }
         }
 
